@@ -337,6 +337,15 @@ pub fn run(ctx: &mut Ctx) {
     let binary: F = Arc::new(ResidualModel::PcSaftFunctional(PcSaftFunctional::new(zoo::pcsaft_params(&[(&["butane", "pentane"], "gross2001")]))));
     systems.push(Sys { id: "pcsaft:butane+pentane".into(), eos: binary.clone(), tr: 1.05, kind: "spec", depth: 0, n_grid: 256 });
     systems.push(Sys { id: "gcpcsaft:hexane".into(), eos: hexane_gc.clone(), tr: 1.05, kind: "spec", depth: 0, n_grid: 256 });
+    if tier == Tier::Quick {
+        // the remaining systems of the thorough tier with single-stage chains (they run in parallel)
+        systems.push(Sys { id: "pcsaft:propane".into(), eos: propane.clone(), tr: 0.6, kind: "planar", depth: 1, n_grid: 512 });
+        systems.push(Sys { id: "pcsaft:propane".into(), eos: propane.clone(), tr: 0.95, kind: "planar", depth: 1, n_grid: 512 });
+        systems.push(Sys { id: "pcsaft:water".into(), eos: water.clone(), tr: 0.7, kind: "planar", depth: 1, n_grid: 512 });
+        systems.push(Sys { id: "gcpcsaft:hexane".into(), eos: hexane_gc.clone(), tr: 0.75, kind: "planar", depth: 1, n_grid: 512 });
+        systems.push(Sys { id: "pcsaft:methane".into(), eos: methane.clone(), tr: 0.9, kind: "pore:cylinder", depth: 1, n_grid: 256 });
+        systems.push(Sys { id: "pcsaft:methane".into(), eos: methane.clone(), tr: 0.9, kind: "pore:sphere", depth: 1, n_grid: 256 });
+    }
     if tier == Tier::Thorough {
         systems.push(Sys { id: "pcsaft:butane+pentane".into(), eos: binary, tr: 0.9, kind: "spec", depth: 0, n_grid: 512 });
         systems.push(Sys { id: "pcsaft:propane".into(), eos: propane.clone(), tr: 0.6, kind: "planar", depth: 3, n_grid: 512 });
